@@ -412,6 +412,22 @@ func mkBvBin(op Op, a, b *Term) *Term {
 		if op == opBvOr && a == b {
 			return a
 		}
+		if op == opBvOr || op == opBvXor || op == opBvAdd {
+			// X | concat(H, 0_k)  =  concat(X[w-1:k] | H, X[k-1:0])   (byte re-assembly)
+			for i := 0; i < 2; i++ {
+				x, c := a, b
+				if i == 1 {
+					x, c = b, a
+				}
+				if hiC, k, ok := splitLowZeros(c); ok && (x.op == opZext || x.op == opConcat || x.op == opExtract) {
+					hiX := mkExtract(x, w-1, k)
+					if op == opBvAdd && !(hiX.isConst() && hiX.cval == 0) {
+						continue
+					}
+					return mkConcat(mkBvBin(op, hiX, hiC), mkExtract(x, k-1, 0))
+				}
+			}
+		}
 	case opBvSub:
 		if b.isConst() && b.cval == 0 {
 			return a
@@ -642,6 +658,22 @@ func mkConcat(a, b *Term) *Term {
 	// concat(extract(x,h,m+1), extract(x,m,l)) = extract(x,h,l)
 	if a.op == opExtract && b.op == opExtract && a.args[0] == b.args[0] && a.p2 == b.p1+1 {
 		return mkExtract(a.args[0], a.p1, b.p2)
+	}
+	// whole-variable re-assembly: concat(extract(x,h,m+1), x') where x' is x[m:0] itself
+	if a.op == opExtract && a.args[0] == b && false {
+		return b
+	}
+	// concat(a, concat(b1, b2)) with a, b1 adjacent extracts: fuse the left pair first
+	if a.op == opExtract && b.op == opConcat && b.args[0].op == opExtract && a.args[0] == b.args[0].args[0] && a.p2 == b.args[0].p1+1 {
+		return mkConcat(mkExtract(a.args[0], a.p1, b.args[0].p2), b.args[1])
+	}
+	// concat(concat(a1, a2), b) with a2, b adjacent extracts
+	if a.op == opConcat && a.args[1].op == opExtract && b.op == opExtract && a.args[1].args[0] == b.args[0] && a.args[1].p2 == b.p1+1 {
+		return mkConcat(a.args[0], mkExtract(b.args[0], a.args[1].p1, b.p2))
+	}
+	// concat(zext(a'), b): keep zero bits on top
+	if a.op == opZext {
+		return mkZext(mkConcat(a.args[0], b), a.p1)
 	}
 	return tt.intern(&Term{op: opConcat, sort: bvSort(w), args: []*Term{a, b}})
 }
@@ -1017,4 +1049,45 @@ func (t *Term) vars(seen map[*Term]bool, out map[string]Sort) {
 	for _, a := range t.args {
 		a.vars(seen, out)
 	}
+}
+
+// termString renders a term as a nested expression up to the given depth (diagnostics).
+func termString(t *Term, depth int) string {
+	if t.op == opConst || t.op == opVar {
+		return t.ref()
+	}
+	if depth == 0 {
+		return "…"
+	}
+	var parts []string
+	for _, a := range t.args {
+		parts = append(parts, termString(a, depth-1))
+	}
+	name := opNames[t.op]
+	switch t.op {
+	case opExtract:
+		name = fmt.Sprintf("extract[%d:%d]", t.p1, t.p2)
+	case opZext:
+		name = fmt.Sprintf("zext%d", t.p1)
+	case opSext:
+		name = fmt.Sprintf("sext%d", t.p1)
+	case opUF:
+		name = t.name
+	}
+	return "(" + name + " " + strings.Join(parts, " ") + ")"
+}
+
+// splitLowZeros recognises t = concat(H, 0_k) (possibly under zero extension).
+func splitLowZeros(t *Term) (*Term, int, bool) {
+	switch t.op {
+	case opConcat:
+		if t.args[1].isConst() && t.args[1].cval == 0 {
+			return t.args[0], t.args[1].sort.W, true
+		}
+	case opZext:
+		if h, k, ok := splitLowZeros(t.args[0]); ok {
+			return mkZext(h, t.p1), k, true
+		}
+	}
+	return nil, 0, false
 }
